@@ -6,13 +6,16 @@ expr = Polish notation:  s <axis> <test> | sa <axis> <test> (abbreviated child/@
        | un E E | count E | n <k> | pos | last | cmp <op> E E | and E E | or E E | not E
 test = node | text | comment | pi | pi:<target> | any | q:<uri>:<local> | ns:<uri>
 With OP=state (no E): the generator traces of EPV/Model/AxesState.lean, see `answerState`.
-Answer:  wf=<0|1> fl=<0|1: T = flatten X> ty=<path|num|bool|none> R=<ctx>:<model>:<spec>:<inK>|...
+Optional F=<position>,<size> and AX=<axis> = initial position/size/axis arguments of the context.
+Answer:  wf=<0|1> fl=<0|1: T = flatten X> ty=<path|num|bool|none>
+         R=<ctx>:<model>:<spec|NA>:<inK>:<item,axis,pos,size left in the caller's context (evalS)>:<evalS value = eval value>|...
 value = N<i>,<i>,... | B0 | B1 | #<k> | ERR;  inK = 1 (F01b trigger) + 2 (F01c trigger) + 4 (F01i trigger)
 -/
 import EPV.Proto
 import EPV.Spec.XPath1Paths
 import EPV.Model.AxesTree
 import EPV.Model.AxesState
+import EPV.Model.AxesEvalState
 open EPV.Proto EPV.XP
 
 def parseKind : String → Option Kind
@@ -180,14 +183,23 @@ def answerExpr (line : String) (m : Mode) (a : Arr) (e : Expr) : String :=
   let cs := field fs "C"
   let ctxs : List Nat := if cs == "*" then List.range a.length else
     (cs.splitOn ",").filterMap nat?
+  -- optional initial `position=`, `size=` (F=pos,size) and `axis=` (AX=<axis name>) of the context
+  let (p0, s0) := match (field fs "F").splitOn "," with
+    | [p, z] => ((nat? p).getD 1, (nat? z).getD 1)
+    | _ => (1, 1)
+  let ax0 := parseAxis (field fs "AX")
   let outs := ctxs.map fun c =>
-    let f : Focus := ⟨c, 1, 1⟩
-    let mv := eval m a e f
+    let f : Focus := ⟨c, p0, s0⟩
+    -- the state-threading evaluator: value and the state the caller's context is left in
+    let rs := evalS (fun _ c => c) m a e ⟨c, ax0, p0, s0⟩
+    let mv := if ax0.isSome then rs.1 else eval m a e f
     let sv := Spec.sem m a e f
-    let k := (if safeG (fun ax _ n => okF01b a ax n) m a e f then 0 else 1) +
-             (if safeG (fun ax _ n => okF01c a ax n) m a e f then 0 else 2) +
-             (if safeG (fun ax ab n => okF01i m ax ab n) m a e f then 0 else 4)
-    s!"{c}:{showVal mv}:{showVal sv}:{k}"
+    let k := (if safeG (fun ax t _ n => !trigF01b m a ax t n) m a e f then 0 else 1) +
+             (if safeG (fun ax t _ n => !trigF01c m a ax t n) m a e f then 0 else 2) +
+             (if safeG (fun ax t ab n => !trigF01i m a ax t ab n) m a e f then 0 else 4)
+    let fin := s!"{rs.2.item},{match rs.2.axis with | some ax => axisName ax | none => "-"},{rs.2.pos},{rs.2.size}"
+    let same := if rs.1 == eval m a e f then 1 else 0
+    s!"{c}:{showVal mv}:{if ax0.isSome then "NA" else showVal sv}:{k}:{fin}:{same}"
   s!"wf={if wf then 1 else 0} fl={if fl then 1 else 0} ty={tyS} R={"|".intercalate outs}"
 
 def answer (line : String) : String :=
